@@ -394,6 +394,12 @@ where
     CS::Expander: for<'a> ExpandMsg<'a>,
 {
     let size = if h.tier_thorough { 64 } else { 12 };
+    if h.tier_thorough {
+        // many more sequential batteries with fresh inputs (the threaded comparison below uses the last)
+        for _ in 0..24 {
+            battery::<CS>(h, 16);
+        }
+    }
     let seed0 = h.rng.next();
     let first = h.next_id;
     h.rng = crate::util::Rng::new(seed0);
